@@ -435,7 +435,11 @@ def prove(ob, timeout_ms=20000, global_axioms=(), want_model=False):
         if z3.is_true(goal):
             continue
         g_terms = [to_z3(g, 'bool') for g in guards if g is not True]
+        del TRACE[:]
         status, d, m = _prove_one(ground, foralls, g_terms, goal, timeout_ms, want_model)
+        if _os.environ.get('SEDVC_TRACE') and status != 'proved':
+            import sys as _sys
+            _sys.stderr.write('TRACE %s [%s] %s %s\n' % (ob.name, ob.path, status, TRACE))
         if status != 'proved':
             worst = status if worst != 'refuted' else worst
             if status == 'refuted':
@@ -457,32 +461,41 @@ STAGES = (
 )
 
 Z3_BIN = _os.environ.get('SEDVC_Z3', 'z3-new')
+Z3_OLD = _os.environ.get('SEDVC_Z3_OLD', '/usr/bin/z3')
+TRACE = []
 
 
-def run_z3(smt2, timeout_ms, want_model=False):
-    """Run the query in a separate z3 process (hard timeout).  Returns (status, model text)."""
+def _shuffled(smt2, seed):
+    """The same query with its top-level assertions in another order (z3's heuristics are very
+    sensitive to it; any `unsat` is equally valid)."""
+    import random
+    head, sep, rest = smt2.partition('(assert')
+    if not sep:
+        return smt2
+    body, _, tail = (sep + rest).rpartition('(check-sat)')
+    parts = [a for a in body.split('\n(assert') if a.strip()]
+    parts = [(a if a.startswith('(assert') else '(assert' + a) for a in parts]
+    random.Random(seed).shuffle(parts)
+    return head + '\n'.join(parts) + '\n(check-sat)\n'
+
+
+def _launch(cmd, text, want_model):
     import subprocess
     import tempfile
-    text = smt2
     if want_model:
         text = text + "\n(get-model)\n"
-    with tempfile.NamedTemporaryFile('w', suffix='.smt2', delete=False, dir=_os.environ.get('TMPDIR') or '/var/tmp') as f:
-        f.write(text)
-        path = f.name
+    f = tempfile.NamedTemporaryFile('w', suffix='.smt2', delete=False, dir=_os.environ.get('TMPDIR') or '/var/tmp')
+    f.write(text)
+    f.close()
     try:
-        try:
-            p = subprocess.run([Z3_BIN, '-T:%d' % max(1, int(timeout_ms / 1000) + 1), 'smt.random_seed=%s' % _os.environ.get('VERIF_SEED', '0'), path],
-                               capture_output=True, text=True, timeout=timeout_ms / 1000.0 + 5)
-            out = p.stdout
-        except subprocess.TimeoutExpired:
-            return 'unknown', 'hard timeout'
-        except FileNotFoundError:
-            return None, None
-    finally:
-        try:
-            _os.unlink(path)
-        except OSError:
-            pass
+        p = subprocess.Popen(cmd + [f.name], stdout=subprocess.PIPE, stderr=subprocess.DEVNULL, text=True)
+    except FileNotFoundError:
+        _os.unlink(f.name)
+        return None, f.name
+    return p, f.name
+
+
+def _answer(out, want_model):
     first = out.strip().split('\n')[0].strip() if out.strip() else ''
     if first == 'unsat':
         return 'unsat', None
@@ -491,10 +504,69 @@ def run_z3(smt2, timeout_ms, want_model=False):
     return 'unknown', out[:200]
 
 
+def run_z3(smt2, timeout_ms, want_model=False, portfolio=True):
+    """Run the query in separate solver processes (hard timeouts).  The primary is z3 5.x; if it
+    does not answer quickly a small portfolio joins in (another random seed, the assertions in
+    another order, z3 4.8.12): the first definite answer wins.  Returns (status, model text)."""
+    import time as _t
+    tsec = max(1, int(timeout_ms / 1000) + 1)
+    seed = _os.environ.get('VERIF_SEED', '0')
+    primary, path0 = _launch([Z3_BIN, '-T:%d' % tsec, 'smt.random_seed=%s' % seed], smt2, want_model)
+    if primary is None:
+        return None, None
+    procs = [(primary, path0, 'z3')]
+    t0 = _t.time()
+    deadline = t0 + timeout_ms / 1000.0 + 3
+    grace = min(2.0, timeout_ms / 4000.0)
+    launched = False
+    result = ('unknown', 'timeout')
+    try:
+        while _t.time() < deadline:
+            done_all = True
+            for p, _, who in procs:
+                rc = p.poll()
+                if rc is None:
+                    done_all = False
+                    continue
+                if getattr(p, '_seen', False):
+                    continue
+                p._seen = True
+                st, m = _answer(p.stdout.read(), want_model)
+                if st in ('unsat', 'sat'):
+                    return st, m
+            if portfolio and not launched and _t.time() - t0 > grace:
+                launched = True
+                left = max(1, int(deadline - _t.time() - 2))
+                for cmd, text in (([Z3_BIN, '-T:%d' % left, 'smt.random_seed=7'], smt2),
+                                  ([Z3_BIN, '-T:%d' % left, 'smt.random_seed=3'], _shuffled(smt2, 1)),
+                                  ([Z3_OLD, '-T:%d' % left], _shuffled(smt2, 2))):
+                    p, path = _launch(cmd, text, want_model)
+                    if p is not None:
+                        procs.append((p, path, cmd[0]))
+                done_all = False
+            if done_all:
+                break
+            _t.sleep(0.02)
+        return result
+    finally:
+        for p, path, _ in procs:
+            if p.poll() is None:
+                p.kill()
+            try:
+                p.stdout.close()
+            except Exception:
+                pass
+            try:
+                _os.unlink(path)
+            except OSError:
+                pass
+
+
 def _prove_one(ground, foralls, guards, goal, timeout_ms, want_model):
     last = ('unknown', 'unknown', None)
     store = AxiomStore()
     inst_cache = {}
+    retry = []
     core = list(ground) + list(guards) + [goal]
     for stage, (use_ground_terms, max_rounds, pairwise, unfold, sign, tfrac) in enumerate(STAGES):
         wide = sign == 'wide'
@@ -544,7 +616,7 @@ def _prove_one(ground, foralls, guards, goal, timeout_ms, want_model):
         smt2 = s.to_smt2()
         if DUMP_DIR:
             _os.makedirs(DUMP_DIR, exist_ok=True)
-            with open(_os.path.join(DUMP_DIR, 'q%04d_%d.smt2' % (next(_dump_counter), stage)), 'w') as fdump:
+            with open(_os.path.join(DUMP_DIR, 'p%d_q%04d_%d.smt2' % (_os.getpid(), next(_dump_counter), stage)), 'w') as fdump:
                 fdump.write(smt2)
         tmo = max(2000, int(timeout_ms * tfrac))
         # first the real relaxation with functions abstracted (pure QF_NRA -> nlsat); only an
@@ -556,11 +628,15 @@ def _prove_one(ground, foralls, guards, goal, timeout_ms, want_model):
                 for f in relax(list(s.assertions())):
                     rs.add(f)
                 rr, _ = run_z3(rs.to_smt2(), min(tmo, 10000))
+                TRACE.append((stage, 'relaxed', min(tmo, 10000), rr))
                 if rr == 'unsat':
                     return 'proved', 'nlsat on the real relaxation', None
             except Exception:
                 pass
         r, m = run_z3(smt2, tmo, want_model=(want_model and final))
+        TRACE.append((stage, len(smt2), tmo, r))
+        if r == 'unknown' and not final:
+            retry.append((smt2, list(s.assertions())))
         if r is None:       # no CLI available: in-process
             s.set('timeout', tmo)
             rr = s.check()
@@ -573,6 +649,23 @@ def _prove_one(ground, foralls, guards, goal, timeout_ms, want_model):
                 continue
             return 'refuted', 'sat: the negated obligation is satisfiable', m
         last = ('unknown', 'unknown: %s' % (m or 'timeout'), None)
+    # second pass: the (smaller) intermediate queries that only ran out of their share of the time
+    # budget get the full budget -- keeps verdicts stable when the machine is busy
+    for smt2, assertions in retry:
+        r, m = run_z3(smt2, timeout_ms)
+        if r == 'unsat':
+            return 'proved', 'second pass with the full time budget', None
+        if _nonlinear(assertions):
+            try:
+                from .relax import relax
+                rs = z3.Solver()
+                for f in relax(assertions):
+                    rs.add(f)
+                rr, _ = run_z3(rs.to_smt2(), timeout_ms)
+                if rr == 'unsat':
+                    return 'proved', 'nlsat on the real relaxation (second pass)', None
+            except Exception:
+                pass
     return last
 
 
